@@ -1840,3 +1840,31 @@ Q(name="e2_on_packet_acked_slice", props=["C12"], func=r"connection/mod\.rs:245:
   functions=["Connection::on_packet_acked (up to the per-frame delivery loops)"], pre=lambda c: "true", post=opa2_post,
   bounds="every acknowledged packet and connection state: remove_in_flight runs exactly once, for this packet, before anything else; Controller::on_ack is called at most once, only for an ack-eliciting packet, with the packet's own size; the loops that mark stream frames delivered are outside",
   replay=("conn_on_packet_acked_native", lambda m: [dict(eliciting=0), dict(eliciting=1)]))
+
+
+# ------------------------------------------------------------------ C09: issuing a local CID never re-points a CID that is already routed (one iteration of Endpoint::new_cid)
+def nc_post(c, p):
+    st = p.p.state
+    table = "*_1.%d.%d" % (c.field("endpoint.rs", "Endpoint", "index"), c.field("endpoint.rs", "ConnectionIndex", "connection_ids"))
+    conj = []
+    for x in st.calls:
+        if not x[1] or x[1][0][0] != "ref":
+            continue
+        recv = str(x[1][0][1])
+        if not (recv == table or recv.startswith(table + ".")):
+            continue
+        if re.search(r"entry$|rustc_entry$|get$|contains_key$", x[0]):
+            continue                         # look-ups
+        if re.search(r"::insert$", x[0]):
+            # an overwriting insert: tolerable only when it did not replace anything
+            conj.append(eq(c.ex.read_key(st, x[2] + "#discr", I64).t, bv(0)))
+            continue
+        return "false"                       # any other direct modification of the routing table
+    return and_(*conj)
+
+
+Q(name="e2_endpoint_new_cid_no_overwrite", props=["C09"], func=r"endpoint\.rs:61:1[^>]*>::new_cid$",
+  loop_is_stop=True, check_stop=True, allowed_panics=r".",
+  functions=["Endpoint::new_cid (one iteration of its retry loop)"], pre=lambda c: "true", post=nc_post,
+  bounds="one iteration of the generate-and-retry loop, every outcome of the generator and of the table look-up (hash map opaque): the CID routing table is modified only through a vacant entry obtained for the generated CID, or by an insert that replaced nothing - a colliding CID never re-points an existing route; the loop's other iterations start from the same (arbitrary) state",
+  replay=("endpoint_new_cid_collision_native", lambda m: [dict(x=0)]))
